@@ -464,6 +464,16 @@ class Body:
         finally:
             self._pin = old
 
+    def _defs_of(self, l):
+        """All definitions of a local; when an analysis has singled out some of its whole definitions (`_pin`: the ones that
+        matter for the kind of packet / the path looked at), those in place of all whole definitions."""
+        ds = self.defs.get(l, [])
+        pin = self.__dict__.get("_pin")
+        if pin and l in pin:
+            whole = {id(d) for d in self._whole_defs_raw(l)}
+            ds = [d for d in ds if id(d) not in whole] + list(pin[l])
+        return ds
+
     def _only_whole_defs(self, l):
         """The local is defined once, as a whole (or, when an analysis has singled out one of its definitions, is only
         ever defined as a whole): no field of it is written separately."""
@@ -590,9 +600,18 @@ class Body:
         # field-sensitive step through tuple aggregates: `(a, b).1` derives from b only
         projs = [p for p in pl["p"] if p != "deref"]
         if projs and isinstance(projs[0], dict) and "f" in projs[0]:
-            ds0 = self.whole_defs(pl["l"])
+            base_l = pl["l"]
+            for _ in range(6):
+                # `let limits = BrokerLimits::from(..)` inlined: the literal sits behind whole moves
+                dsm = self.whole_defs(base_l)
+                if len(dsm) == 1 and dsm[0][0] == "stmt" and dsm[0][3]["rv"]["k"] == "use" and dsm[0][3]["rv"]["op"].get("k") in ("move", "copy") \
+                        and not dsm[0][3]["rv"]["op"]["pl"]["p"] and self._only_whole_defs(base_l):
+                    base_l = dsm[0][3]["rv"]["op"]["pl"]["l"]
+                    continue
+                break
+            ds0 = self.whole_defs(base_l)
             if len(ds0) == 1 and ds0[0][0] == "stmt" and _bundle_literal(self, ds0[0][3]["rv"], projs[0]) \
-                    and self._only_whole_defs(pl["l"]):
+                    and self._only_whole_defs(base_l):
                 k = projs[0]["f"]
                 ops = ds0[0][3]["rv"]["ops"]
                 if k < len(ops):
@@ -643,7 +662,7 @@ class Body:
         if l in _seen:
             return out
         _seen.add(l)
-        ds = self.defs.get(l, [])
+        ds = self._defs_of(l)
         if not ds:
             out.add(("local", l, self.names.get(l)))
         if l <= self.fn["arg_count"] and l >= 1:
@@ -759,7 +778,7 @@ class Body:
         if depth > 8:
             return None
         seen.add(local)
-        ds = self.defs.get(local, []) if local > self.fn["arg_count"] else []
+        ds = self._defs_of(local) if local > self.fn["arg_count"] else []
         if not ds:
             return [("opaque", local)]
         out = []
@@ -850,7 +869,7 @@ class Body:
             if l in visited:
                 continue
             visited.add(l)
-            ds = self.defs.get(l, [])
+            ds = self._defs_of(l)
             blocks = {d[1] for d in ds}
             if len(ds) >= 2 and l not in _seen and l > self.fn["arg_count"]:
                 _seen.add(l)
@@ -1243,7 +1262,7 @@ def symex(body, x, depth=0):
     """Small symbolic expression of an operand / place by following single whole-definitions:
     ('const', v) ('uneval', def, self_ty, eval) ('bin', op, a, b) ('un', op, a) ('cast', ty, a)
     ('call', name, [args]) ('place', pretty, fields, downcasts) ('agg', variant, [ops]) ('?',)"""
-    if depth > 25 or x is None:
+    if depth > 60 or x is None:
         return ("?",)
     if x.get("k") == "const":
         if x.get("uneval"):
